@@ -371,19 +371,25 @@ def _pair_path(ep, segs, D, reach=None):
     for s in segs:
         if s.kind == 'utf8':
             dec_err = set()
+            other = set()
             for dp in D.paths:
                 for t in T.subterms(dp.value):
                     if t.op == 'decode_utf8':
                         dec_err.add(t.args[1] if len(t.args) > 1
                                     else 'strict')
-            okc = s.errors == 'strict' and dec_err <= {'strict'}
+                    elif t.op == 'decode':
+                        other.add(str(t.args[1]))
+            okc = s.errors == 'strict' and dec_err == {'strict'} and \
+                not other
             res.append(('codec', okc,
                         'text written with UTF-8 errors=%r, read with '
-                        'errors=%r: %s' % (
-                            s.errors, sorted(map(str, dec_err)),
+                        '%s: %s' % (
+                            s.errors,
+                            'UTF-8 errors=%r' % sorted(map(str, dec_err))
+                            if not other else 'codec %s' % sorted(other),
                             'same strict codec on both sides' if okc else
-                            'a lenient handler makes the two sides '
-                            'disagree on ill-formed text')))
+                            'the two sides do not use the same strict '
+                            'codec, so some text does not come back')))
     for dp in D.paths:
         reads = list(dp.reads.values())
         used = set()
@@ -431,6 +437,14 @@ def _pair_path(ep, segs, D, reach=None):
                     # a length prefix: the encoder writes a len() and the
                     # decoder uses the value read there as a length
                     prefix_read = (s, r, o)
+                elif s.operand[0] not in ('len', 'const') and \
+                        T.mentions(dp.consumed, lambda t: t is r.term):
+                    # the decoder takes the field as a length, the encoder
+                    # writes something that is not the length of what follows
+                    res.append(('prefix', False, 'the decoder uses the %s at '
+                                'offset %s as a length, the encoder writes '
+                                '%s there' % (_fld_text(s), T.show(o),
+                                              T.show(s.arg)[:80])))
         for r in reads:
             if r.term not in used:
                 res.append(('read', False, 'decoder reads %r which is not a '
